@@ -58,6 +58,12 @@ ALLOWED_AXIOM_SHORT = {
     'Prim2SF_valid', 'SF2Prim_Prim2SF', 'Prim2SF_SF2Prim', 'Prim2SF_inj', 'SF2Prim_inj',
     'of_uint63_spec', 'normfr_mantissa_spec', 'frshiftexp_spec', 'ldshiftexp_spec',
     'next_up_spec', 'next_down_spec', 'Leibniz.eqb_spec',
+    # primitive float / int63 operations printed unqualified when Floats is imported (kernel primitives, not axioms of ours;
+    # a development-local declaration of any of these names would be caught by the forbidden-vernacular scan)
+    'sub', 'mul', 'add', 'div', 'opp', 'abs', 'sqrt', 'ltb', 'leb', 'eqb', 'compare', 'classify', 'of_uint63',
+    'normfr_mantissa', 'frshiftexp', 'ldshiftexp', 'next_up', 'next_down', 'float_class', 'float_comparison',
+    'lsl', 'lsr', 'land', 'lor', 'lxor', 'mod', 'mulc', 'diveucl', 'addc', 'subc', 'addcarryc', 'subcarryc',
+    'head0', 'tail0', 'compares', 'ltsb', 'lesb', 'asr', 'divs', 'mods', 'diveucl_21', 'addmuldiv', 'of_sint63',
 }
 
 BAD_WORDS = re.compile(
